@@ -1035,4 +1035,27 @@ theorem along_height (c n a b : Vec) (s : Rat) (ha : a.length = b.length) (hc : 
     dot_vsub_left _ _ _ hc.symm, dot_vsub_left _ _ _ (by rw [← ha, hc])]
   ring
 
+/-! ### branches of `segPoly` -/
+
+theorem segPolyGeneral_branch (tolS : Rat) (s e : Vec) (poly : List Vec) :
+    (segPolyGeneral tolS s e poly).branch = 2 := by
+  unfold segPolyGeneral
+  simp only []
+  split <;> (try split_ifs) <;> rfl
+
+theorem segPoly_some (tolP tolS : Rat) (s e : Vec) (poly : List Vec) (x0 : Vec)
+    (hx : crossPoint tolP s e poly = some x0) : segPoly tolP tolS s e poly = ⟨0, x0, 0⟩ := by
+  unfold segPoly; rw [hx]
+
+theorem segPoly_none (tolP tolS : Rat) (s e : Vec) (poly : List Vec)
+    (hx : crossPoint tolP s e poly = none) :
+    (segPoly tolP tolS s e poly).branch = 1 ∨ segPoly tolP tolS s e poly = segPolyGeneral tolS s e poly := by
+  unfold segPoly
+  rw [hx]
+  simp only []
+  split_ifs
+  · exact Or.inl rfl
+  · exact Or.inl rfl
+  · exact Or.inr rfl
+
 end PorepyVerif.C30
